@@ -441,3 +441,102 @@ func c07wireReturnEntity(stats map[string]int) {
 		}
 	}
 }
+
+// c07wirePrefixNames: collPfx annotates created + address read-only and createdBy + addressLine2 create-only -- names that
+// are string prefixes of one another without being path prefixes.  Every one of the four is its own directive.
+func c07wirePrefixNames(stats map[string]int) {
+	name := "collPfx"
+	info, ok := resources[name]
+	if !ok {
+		violation("C07/wire/no-such-resource/"+name, "generated bindings lack resource "+name, nil)
+		return
+	}
+	invoked := 0
+	mock := reflect.New(info.mock)
+	retGen := &gen{text: "x", n: 500}
+	for i := 0; i < info.mock.NumField(); i++ {
+		ft := info.mock.Field(i).Type
+		mock.Elem().Field(i).Set(reflect.MakeFunc(ft, func(args []reflect.Value) []reflect.Value {
+			invoked++
+			rets := make([]reflect.Value, ft.NumOut())
+			for o := 0; o < ft.NumOut(); o++ {
+				if ft.Out(o).Name() == "error" {
+					rets[o] = reflect.Zero(ft.Out(o))
+				} else {
+					rets[o] = scripted(retGen, ft.Out(o), args[1:])
+				}
+			}
+			return rets
+		}))
+	}
+	server := restli.NewServer()
+	info.register(server, mock.Interface())
+	rec := &wireRec{}
+	bu, _ := url.Parse("http://host.example")
+	rc := &restli.Client{Client: &http.Client{Transport: &transport{h: server.Handler(), rec: rec}}, HostnameResolver: &restli.SimpleHostnameResolver{Hostname: bu}}
+	client := reflect.ValueOf(info.newClient(rc))
+	full := &gen{text: "x", noExcl: false}
+	forbidden := map[string][]string{"Create": {"created", "address"}, "Update": {"created", "address", "createdBy", "addressLine2"}, "BatchUpdate": {"created", "address", "createdBy", "addressLine2"}}
+	for _, mname := range []string{"Create", "Update", "BatchUpdate"} {
+		m := client.MethodByName(mname)
+		if !m.IsValid() {
+			violation("C07/wire/no-such-method/"+name+"."+mname, "generated client lacks the method", nil)
+			continue
+		}
+		var args []reflect.Value
+		for i := 0; i < m.Type().NumIn(); i++ {
+			args = append(args, full.value(m.Type().In(i), ""))
+		}
+		*rec = wireRec{}
+		before := invoked
+		rets := m.Call(args)
+		stats["c07_client_calls"]++
+		cs := map[string]any{"resource": name, "method": mname, "request_body": rec.body}
+		for _, f := range forbidden[mname] {
+			if strings.Contains(rec.body, `"`+f+`":`) {
+				violation("C07/wire/client-transmits-excluded-field/"+name+"."+mname+"/"+f, fmt.Sprintf("%s.%s transmitted %q: %s", name, mname, f, rec.body), cs)
+			}
+		}
+		if mname == "Create" && !strings.Contains(rec.body, `"createdBy":`) {
+			violation("C07/wire/client-drops-allowed-field/"+name+".Create/createdBy", "create dropped a create-only field, which it may transmit: "+rec.body, cs)
+		}
+		if e := rets[len(rets)-1]; !e.IsNil() || invoked != before+1 {
+			violation("C07/wire/client-call-with-excluded-fields-failed/"+name+"."+mname, fmt.Sprintf("the call did not reach the resource (error %v)", rets[len(rets)-1]), cs)
+		}
+	}
+	h := server.Handler()
+	probes := []struct {
+		pname, verb, target, method, body string
+		offending                         bool
+	}{
+		{"update/created", "PUT", "/collPfx/1", "update", `{"name":"n","created":5}`, true},
+		{"update/createdBy", "PUT", "/collPfx/1", "update", `{"name":"n","createdBy":"m"}`, true},
+		{"update/address", "PUT", "/collPfx/1", "update", `{"name":"n","address":{"a":1}}`, true},
+		{"update/addressLine2", "PUT", "/collPfx/1", "update", `{"name":"n","addressLine2":"x"}`, true},
+		{"update/clean", "PUT", "/collPfx/1", "update", `{"name":"n"}`, false},
+		{"create/createdBy-allowed", "POST", "/collPfx", "create", `{"name":"n","createdBy":"m","addressLine2":"x"}`, false},
+		{"create/created", "POST", "/collPfx", "create", `{"name":"n","created":5}`, true},
+		{"partial_update/set-createdBy", "POST", "/collPfx/1", "partial_update", `{"patch":{"$set":{"createdBy":"m"}}}`, true},
+		{"partial_update/delete-addressLine2", "POST", "/collPfx/1", "partial_update", `{"patch":{"$delete":["addressLine2"]}}`, true},
+		{"partial_update/clean", "POST", "/collPfx/1", "partial_update", `{"patch":{"$set":{"name":"n"}}}`, false},
+		{"batch_update/createdBy", "PUT", "/collPfx?ids=List(1)", "batch_update", `{"entities":{"1":{"name":"n","createdBy":"m"}}}`, true},
+	}
+	for _, p := range probes {
+		before := invoked
+		*rec = wireRec{}
+		req, _ := http.NewRequest(p.verb, "http://host.example"+p.target, strings.NewReader(p.body))
+		req.Header.Set("X-RestLi-Method", p.method)
+		req.Header.Set("X-RestLi-Protocol-Version", "2.0.0")
+		req.Header.Set("Content-Type", "application/json")
+		res, _ := (&transport{h: h, rec: rec}).RoundTrip(req)
+		stats["c07_server_probes"]++
+		ran := invoked != before
+		cs := map[string]any{"resource": name, "probe": p.pname, "body": p.body, "status": res.StatusCode, "resource_invoked": ran}
+		if p.offending && (res.StatusCode != 400 || ran) {
+			violation("C07/wire/server-accepts-excluded-field/"+name+"/"+p.pname, fmt.Sprintf("%s %s with body %s: status %d, resource invoked: %v (expected 400, not invoked)", p.verb, p.target, p.body, res.StatusCode, ran), cs)
+		}
+		if !p.offending && (res.StatusCode >= 400 || !ran) {
+			violation("C07/wire/server-rejects-clean-body/"+name+"/"+p.pname, fmt.Sprintf("%s %s with body %s: status %d, resource invoked: %v", p.verb, p.target, p.body, res.StatusCode, ran), cs)
+		}
+	}
+}
